@@ -146,3 +146,107 @@ def _len_norm(f):
     if t in ("T", "F"):
         return f
     return tuple([t] + [_len_norm(x) for x in f[1:]])
+
+
+# ---------------------------------------------------------------------------
+# V3: code tables
+
+TABLES = os.path.join(os.path.dirname(SPEC), "code_tables.json")
+
+
+def table_value(F, b):
+    """canonical value of a const table body: list of strings, or list of [str, [str..]] pairs; None otherwise"""
+    from .facts import peel, lit_val
+    x = b["body"]
+    while isinstance(x, dict) and x.get("k") == "block" and not x.get("stmts"):
+        x = x.get("expr")
+    x = peel(x)
+    if not isinstance(x, dict) or x.get("k") != "array":
+        return None
+    out = []
+    for e in x["es"]:
+        e = peel(e)
+        v = lit_val(e)
+        if isinstance(v, str):
+            out.append(v)
+        elif isinstance(e, dict) and e.get("k") == "tup" and len(e["es"]) == 2:
+            a = lit_val(peel(e["es"][0]))
+            inner = peel(e["es"][1])
+            if isinstance(a, str) and isinstance(inner, dict) and inner.get("k") == "array":
+                out.append([a, sorted(lit_val(peel(q)) for q in inner["es"])])
+            else:
+                return None
+        else:
+            return None
+    return out
+
+
+def order_sensitive(F, path):
+    from .facts import walk
+    for b in F.bodies:
+        if "body" not in b or b.get("exp"):
+            continue
+        for n in walk(b["body"]):
+            if n.get("k") == "mcall" and n.get("m") in ("position", "enumerate", "windows", "zip", "binary_search"):
+                for x in walk(n.get("recv")):
+                    if x.get("k") == "def" and x.get("def") == path:
+                        return True
+            if n.get("k") == "index":
+                for x in walk(n.get("e")):
+                    if x.get("k") == "def" and x.get("def") == path:
+                        return True
+    return False
+
+
+def current_tables(F):
+    out = {}
+    for b in F.bodies:
+        if not b["kind"].startswith("AssocConst") or "body" not in b or b.get("exp"):
+            continue
+        if not (b.get("impl_self") or "").startswith("messages::"):
+            continue
+        v = table_value(F, b)
+        if v is None:
+            continue
+        key = "%s::%s" % (G.short(b["impl_self"]), b["name"])
+        out[key] = {"ordered": order_sensitive(F, b["path"]), "value": v, "file": b["file"], "line": b["line"],
+                    "path": b["path"]}
+    return out
+
+
+def canon_table(t):
+    v = t["value"]
+    if t.get("ordered"):
+        return json.dumps(v)
+    return json.dumps(sorted(v, key=lambda x: json.dumps(x)))
+
+
+def v3(rep, F):
+    r = rep.rule("V3", "code tables = reviewed reference: every code table of a message type (allowed codes, "
+                       "forbidden combinations, prescribed code order) equals the reference table; tables only used "
+                       "for membership are compared as sets, tables used with position()/indexing as sequences",
+                 floor=14)
+    if not os.path.exists(TABLES):
+        rep.fail_closed("V3: spec/code_tables.json missing")
+        return r
+    spec = json.load(open(TABLES))["tables"]
+    cur = current_tables(F)
+    for k in sorted(set(spec) | set(cur)):
+        r["instances"] += 1
+        if k not in cur:
+            rep.add(Finding("V3", k, "missing", "code table %s of the reference no longer exists" % k))
+            continue
+        if k not in spec:
+            rep.notes.append("V3: table %s is not in the reference (new table? not judged)" % k)
+            continue
+        c = cur[k]
+        sref = dict(spec[k])
+        sref["ordered"] = sref.get("ordered") or c["ordered"]
+        c2 = dict(c)
+        c2["ordered"] = sref["ordered"]
+        if canon_table(c2) != canon_table(sref):
+            rep.add(Finding("V3", c["path"], "changed",
+                            "code table %s is %s; the reviewed reference is %s (%s comparison)"
+                            % (k, json.dumps(c["value"])[:300], json.dumps(spec[k]["value"])[:300],
+                               "order-sensitive" if sref["ordered"] else "set"), c["file"], c["line"]))
+    return r
